@@ -381,7 +381,7 @@ Definition parse_txt_regs (data : list Z) : rd (list Z) :=
   sts <- read_le 8 ;;                                   (* readTXTStatus: NewReader(data) *)
   slice_from data 48 ;;; ec <- read_le 4 ;;             (* readTXTErrorCode: data[0x30:] *)
   slice_from data 816 ;;; dpr <- read_le 4 ;;           (* readDMAProtectedRange: data[0x330:] *)
-  seek data 8 ;;; rst <- read_le 1 ;;
+  seek data 8 ;;; rst <- read_le 1 ;;                   (* TxtReset = bit 0 of TXT.ESTS (fix 28e1a56) *)
   seek data 160 ;;; bs <- read_le 8 ;;
   seek data 256 ;;; fsb <- read_le 4 ;;
   seek data 272 ;;; vid <- read_le 2 ;; did <- read_le 2 ;; rid <- read_le 2 ;; ext <- read_le 2 ;;
@@ -396,7 +396,7 @@ Definition parse_txt_regs (data : list Z) : rd (list Z) :=
   seek data 1040 ;;; k2 <- read_le 8 ;;
   seek data 1048 ;;; k3 <- read_le 8 ;;
   seek data 2288 ;;; e2 <- read_le 8 ;;
-  ret (txt_status_fields sts ++ [if rst =? 0 then 0 else 1] ++ txt_errorcode_fields ec ++
+  ret (txt_status_fields sts ++ [bit rst 0] ++ txt_errorcode_fields ec ++
        [ec; bs; fsb; vid; did; rid; ext; qpi; sb; ssz; mj; hb; hs;
         bit dpr 0; bits dpr 4 8; bits dpr 20 12; k0; k1; k2; k3; e2]).
 
